@@ -42,12 +42,39 @@ PY_NAME = {'int': 'int', 'float': 'float', 'str': 'str', 'bool': 'bool', 'none':
            'datetime': 'datetime', 'timedelta': 'timedelta', 'bytes': 'bytes', 'bytearray': 'bytearray'}
 
 
+SAFE = False     # C15: render every library / builtin name qualified, so that adversarial field and class names cannot shadow it
+QUAL = {'int': '_b.int', 'float': '_b.float', 'str': '_b.str', 'bool': '_b.bool', 'None': 'None', 'Any': '_t.Any',
+        'Decimal': '_dec.Decimal', 'Path': '_pl.Path', 'UUID': '_uu.UUID', 'date': '_dtm.date', 'time': '_dtm.time',
+        'datetime': '_dtm.datetime', 'timedelta': '_dtm.timedelta', 'bytes': '_b.bytes', 'bytearray': '_b.bytearray',
+        'Optional': '_t.Optional', 'Union': '_t.Union', 'list': '_b.list', 'set': '_b.set', 'frozenset': '_b.frozenset',
+        'Deque': '_t.Deque', 'tuple': '_b.tuple', 'dict': '_b.dict', 'DefaultDict': '_t.DefaultDict', 'OrderedDict': '_t.OrderedDict',
+        'Literal': '_t.Literal', 'Enum': '_en.Enum', 'NamedTuple': '_t.NamedTuple', 'TypedDict': '_t.TypedDict',
+        'NotRequired': '_te.NotRequired', 'dataclass': '_dc.dataclass', 'field': '_dc.field', 'json_field': '_dw.json_field',
+        'skip_if_field': '_dw.skip_if_field', 'CatchAll': '_dw.CatchAll', 'JSONWizard': '_dw.JSONWizard',
+        'JSONPyWizard': '_dw.JSONPyWizard', 'YAMLWizard': '_wm.YAMLWizard', 'TOMLWizard': '_wm.TOMLWizard',
+        'JSONFileWizard': '_wm.JSONFileWizard', 'BaseJSONWizardMeta': '_bm.BaseJSONWizardMeta', 'type': '_b.type', 'float(': '_b.float('}
+for _n in ('EQ', 'NE', 'LT', 'LE', 'GT', 'GE', 'IS', 'IS_NOT', 'IS_TRUTHY', 'IS_FALSY'):
+    QUAL[_n] = '_dw.' + _n
+
+
+def q(name):
+    return QUAL[name] if SAFE else name
+
+
+def wrap_def(bind, pyname, src, tail=''):
+    """a class-like definition whose __name__ is `pyname` but which is bound at module level as `bind`"""
+    if pyname is None or pyname == bind:
+        return src + tail
+    body = '\n'.join('    ' + ln if ln else ln for ln in src.rstrip('\n').split('\n'))
+    return f'def _mk_{bind}():\n{body}\n    return {pyname}\n{bind} = _mk_{bind}()\n' + tail
+
+
 def lit_src(v):
     if isinstance(v, float):
         if math.isnan(v):
-            return "float('nan')"
+            return q('float(') + "'nan')"
         if math.isinf(v):
-            return "float('inf')" if v > 0 else "float('-inf')"
+            return q('float(') + ("'inf')" if v > 0 else "'-inf')")
     return repr(v)
 
 
@@ -55,32 +82,33 @@ def ty_src(t, defs):
     """Python annotation source for type `t`; class-like definitions are appended to `defs` (ordered dict name -> src)."""
     k = t['k']
     if k in PY_NAME:
-        return PY_NAME[k]
+        return q(PY_NAME[k])
     a = t.get('a', [])
     if k == 'optional':
-        return f'Optional[{ty_src(a[0], defs)}]'
+        return f'{q("Optional")}[{ty_src(a[0], defs)}]'
     if k == 'union':
-        return 'Union[' + ', '.join(ty_src(x, defs) for x in a) + ']'
+        return q('Union') + '[' + ', '.join(ty_src(x, defs) for x in a) + ']'
     if k in ('list', 'set', 'frozenset'):
-        return f'{k}[{ty_src(a[0], defs)}]'
+        return f'{q(k)}[{ty_src(a[0], defs)}]'
     if k == 'deque':
-        return f'Deque[{ty_src(a[0], defs)}]'
+        return f'{q("Deque")}[{ty_src(a[0], defs)}]'
     if k == 'tuple':
-        return 'tuple[' + (', '.join(ty_src(x, defs) for x in a) if a else '()') + ']' if a else 'tuple'
+        return q('tuple') + '[' + (', '.join(ty_src(x, defs) for x in a) if a else '()') + ']' if a else q('tuple')
     if k == 'vtuple':
-        return f'tuple[{ty_src(a[0], defs)}, ...]'
+        return f'{q("tuple")}[{ty_src(a[0], defs)}, ...]'
     if k == 'dict':
-        return f'dict[{ty_src(a[0], defs)}, {ty_src(a[1], defs)}]'
+        return f'{q("dict")}[{ty_src(a[0], defs)}, {ty_src(a[1], defs)}]'
     if k == 'defaultdict':
-        return f'DefaultDict[{ty_src(a[0], defs)}, {ty_src(a[1], defs)}]'
+        return f'{q("DefaultDict")}[{ty_src(a[0], defs)}, {ty_src(a[1], defs)}]'
     if k == 'ordereddict':
-        return f'OrderedDict[{ty_src(a[0], defs)}, {ty_src(a[1], defs)}]'
+        return f'{q("OrderedDict")}[{ty_src(a[0], defs)}, {ty_src(a[1], defs)}]'
     if k == 'literal':
-        return 'Literal[' + ', '.join(lit_src(v) for v in t['vs']) + ']'
+        return q('Literal') + '[' + ', '.join(lit_src(v) for v in t['vs']) + ']'
     if k == 'enum':
         if t['name'] not in defs:
             body = '\n'.join(f'    {m} = {lit_src(v)}' for m, v in t['members'])
-            defs[t['name']] = f'class {t["name"]}(Enum):\n{body}\n'
+            pn = t.get('pyname') or t['name']
+            defs[t['name']] = wrap_def(t['name'], t.get('pyname'), f'class {pn}({q("Enum")}):\n{body}\n')
         return t['name']
     if k == 'namedtuple':
         if t['name'] not in defs:
@@ -92,7 +120,8 @@ def ty_src(t, defs):
                     s += f' = {dflt_src(d)}'
                 lines.append(s)
             del defs[t['name']]
-            defs[t['name']] = f'class {t["name"]}(NamedTuple):\n' + '\n'.join(lines) + '\n'
+            pn = t.get('pyname') or t['name']
+            defs[t['name']] = wrap_def(t['name'], t.get('pyname'), f'class {pn}({q("NamedTuple")}):\n' + '\n'.join(lines) + '\n')
         return t['name']
     if k == 'typeddict':
         if t['name'] not in defs:
@@ -100,9 +129,10 @@ def ty_src(t, defs):
             lines = []
             for n, ft, req in t['fields']:
                 inner = ty_src(ft, defs)
-                lines.append(f'    {n}: {inner}' if req else f'    {n}: NotRequired[{inner}]')
+                lines.append(f'    {n}: {inner}' if req else f'    {n}: {q("NotRequired")}[{inner}]')
             del defs[t['name']]
-            defs[t['name']] = f'class {t["name"]}(TypedDict):\n' + '\n'.join(lines or ['    pass']) + '\n'
+            pn = t.get('pyname') or t['name']
+            defs[t['name']] = wrap_def(t['name'], t.get('pyname'), f'class {pn}({q("TypedDict")}):\n' + '\n'.join(lines or ['    pass']) + '\n')
         return t['name']
     if k == 'cls':
         name = t['info']['name']
@@ -118,11 +148,11 @@ def ty_src(t, defs):
 def dflt_src(d):
     if d[0] == 'lit':
         return lit_src(d[1])
-    return {'list': '[]', 'dict': '{}', 'set': 'set()', 'tuple': '()'}[d[0]]
+    return {'list': '[]', 'dict': '{}', 'set': q('set') + '()', 'tuple': '()'}[d[0]]
 
 
 def dflt_factory_src(d):
-    return {'list': 'list', 'dict': 'dict', 'set': 'set', 'tuple': 'tuple'}[d[0]]
+    return q({'list': 'list', 'dict': 'dict', 'set': 'set', 'tuple': 'tuple'}[d[0]])
 
 
 def cond_src(c):
@@ -130,8 +160,8 @@ def cond_src(c):
     name = {'==': 'EQ', '!=': 'NE', '<': 'LT', '<=': 'LE', '>': 'GT', '>=': 'GE', 'is': 'IS', 'is not': 'IS_NOT',
             '+': 'IS_TRUTHY', '!': 'IS_FALSY'}[op]
     if op in '+!':
-        return f'{name}()'
-    return f'{name}({lit_src(c.get("val"))})'
+        return f'{q(name)}()'
+    return f'{q(name)}({lit_src(c.get("val"))})'
 
 
 META_KEYS = ['key_transform_with_load', 'key_transform_with_dump', 'marshal_date_time_as', 'skip_defaults',
@@ -156,19 +186,20 @@ def cls_src(t, defs):
     info = t['info']
     ftys = dict((n, ft) for n, ft in t['ftys'])
     wizard = info.get('wizard', True)
-    base = {'py': '(JSONPyWizard)', 'yaml': '(YAMLWizard)', 'toml': '(TOMLWizard)', 'file': '(JSONWizard, JSONFileWizard)',
-            True: '(JSONWizard)', False: ''}[wizard]
-    lines = ['@dataclass', f'class {info["name"]}{base}:']
+    base = {'py': f'({q("JSONPyWizard")})', 'yaml': f'({q("YAMLWizard")})', 'toml': f'({q("TOMLWizard")})',
+            'file': f'({q("JSONWizard")}, {q("JSONFileWizard")})', True: f'({q("JSONWizard")})', False: ''}[wizard]
+    pyname = info.get('pyname') or info['name']
+    lines = ['@' + q('dataclass'), f'class {pyname}{base}:']
     meta = info.get('meta')
     if meta is not None and wizard in (True, 'py', 'file'):
-        lines.append('    class _(JSONWizard.Meta):')
+        lines.append(f'    class _({q("JSONWizard")}.Meta):')
         items = meta_items(meta)
         for k, v in items:
             lines.append(f'        {k} = {v}')
         if not items:
             lines.append('        pass')
     for f in info['fields']:
-        ann = 'CatchAll' if f.get('catch_all') else ty_src(ftys[f['name']], defs)
+        ann = q('CatchAll') if f.get('catch_all') else ty_src(ftys[f['name']], defs)
         opts = []
         d = f.get('dflt')
         if d is not None:
@@ -188,14 +219,14 @@ def cls_src(t, defs):
                 extra.append('all=True')
             if f.get('dump_skip'):
                 extra.append('dump=False')
-            rhs = f'json_field({", ".join([keys] + extra + opts)})'
+            rhs = f'{q("json_field")}({", ".join([keys] + extra + opts)})'
         elif f.get('skip_if') is not None:
-            rhs = f'skip_if_field({", ".join([cond_src(f["skip_if"])] + opts)})'
+            rhs = f'{q("skip_if_field")}({", ".join([cond_src(f["skip_if"])] + opts)})'
         elif opts:
             if len(opts) == 1 and opts[0].startswith('default='):
                 rhs = opts[0][len('default='):]
             else:
-                rhs = f'field({", ".join(opts)})'
+                rhs = f'{q("field")}({", ".join(opts)})'
         else:
             rhs = None
         lines.append(f'    {f["name"]}: {ann}' + (f' = {rhs}' if rhs is not None else ''))
@@ -207,11 +238,12 @@ def cls_src(t, defs):
         for f in posts:
             lines.append(f'        self.{f["name"]} = {lit_src(f["post"])}')
     src = '\n'.join(lines) + '\n'
+    tail = ''
     if meta is not None and not wizard:
         items = meta_items(meta)
-        src += f'_m_{info["name"]} = type("Meta", (BaseJSONWizardMeta,), dict(__slots__=(), ' + \
+        tail = f'_m_{info["name"]} = {q("type")}("Meta", ({q("BaseJSONWizardMeta")},), dict(__slots__=(), ' + \
                ', '.join(f'{k}={v}' for k, v in items) + f'))\n_m_{info["name"]}.bind_to({info["name"]})\n'
-    return src
+    return wrap_def(info['name'], info.get('pyname'), src, tail)
 
 
 PRELUDE = '''from __future__ import annotations as _ann_off
@@ -231,6 +263,8 @@ from dataclass_wizard import (JSONWizard, JSONPyWizard, json_field, json_key, Ke
                               EQ, NE, LT, LE, GT, GE, IS, IS_NOT, IS_TRUTHY, IS_FALSY, LoadMeta, DumpMeta, fromdict, asdict)
 from dataclass_wizard.bases_meta import BaseJSONWizardMeta
 from dataclass_wizard.wizard_mixins import YAMLWizard, TOMLWizard, JSONFileWizard
+import builtins as _b, typing as _t, datetime as _dtm, decimal as _dec, pathlib as _pl, uuid as _uu, enum as _en, dataclasses as _dc
+import typing_extensions as _te, dataclass_wizard as _dw, dataclass_wizard.wizard_mixins as _wm, dataclass_wizard.bases_meta as _bm
 '''
 
 
